@@ -93,7 +93,10 @@ class C04(Check):
             'at exactly one RA (meridian strips, two points at one RA, RA 0, strips into the polar cap) or at one Dec.  '
             'After every case the harness runs the canary sequence in the same process - fixed polar, '
             'equal-RA, seam inputs with known answers, a polar one always before an equal-RA one - so that what a call '
-            'leaves behind (e.g. the numpy error state) is seen by the next call.')
+            'leaves behind (e.g. the numpy error state) is seen by the next call.  Class flavours: whole-degree lattice '
+            'positions handed over as int64/int32/int16/unsigned, float32, big-endian, strided, reversed-view and '
+            'read-only arrays (RA only, Dec only, one list, all four), judged by the same oracle (band max(1e-5 rel, '
+            '3e-3 deg) when numpy converts the argument to radians in float32), arguments compared bytewise afterwards.')
     ASSUMPTIONS = ['separations from a long-double chord formula; pairs within max(1e-9 relative, 1e-11 deg) of the match '
                    'length are undecided (gcirc carries <= 5e-14 deg absolute error from the RA subtraction in radians)',
                    'reported distance must agree with the reference within max(1e-9 relative, 1e-11 deg)',
@@ -102,7 +105,8 @@ class C04(Check):
     REQUIRED_COUNTERS = ('true_pairs', 'band_pairs_undecided', 'cross_cell_true_pairs', 'near_threshold_pairs', 'wrap_low_arm', 'wrap_high_arm',
                          'multi_slice_arm', 'outside_bounds_arm', 'polar_single_cell_slice', 'maxmatch_pos_calls',
                          'maxmatch_blocked_pairs', 'edge_close_points', 'perm_variants', 'chunksize_variants',
-                         'canary_sequences', 'canary_inputs_judged', 'equal_ra_list1_cases', 'equal_dec_list1_cases')
+                         'canary_sequences', 'canary_inputs_judged', 'flavour_calls', 'flavour_int_calls', 'flavour_single_precision_calls',
+                         'flavour_layout_calls', 'flavour_args_unchanged_checks', 'flavour_true_pairs', 'equal_ra_list1_cases', 'equal_dec_list1_cases')
 
     # ------------------------------------------------------------------ wiring
     def setup(self):
@@ -150,6 +154,7 @@ class C04(Check):
             'guided_wrap': 200 if q else 4000,
             'polar': 240 if q else 5000,
             'canary_inputs': len(CANARIES),
+            'flavours': 400 if q else 8000,
             'degenerate': 300 if q else 6000,
         }
 
@@ -209,6 +214,37 @@ class C04(Check):
         inp = CANARIES[name][0]
         return {'m': inp['m'], 'cs': None, 'k': 0, 'ra1': list(inp['ra1']), 'dec1': list(inp['dec1']),
                 'ra2': list(inp['ra2']), 'dec2': list(inp['dec2']), 'canary': name}
+
+    def gen_flavours(self, rng, nr, i):
+        """whole-degree lattice positions handed over as int64/int32/int16/unsigned, float32, big-endian, strided,
+        reversed-view and read-only arrays (RA only, Dec only, both; list 1 only, list 2 only, all four); each flavoured
+        call is judged against the reference for the same positions, after the plain float64 call"""
+        dec0 = rng.choice([-60, -40, -20, -3, 0, 10, 30, 50, 60, 70])
+        ra0 = rng.choice([0, 5, 100, 250, 350, 355, 357])
+        gx, gy = rng.randint(3, 9), rng.randint(2, 6)
+        sites = [((ra0 + a) % 360, dec0 + b) for a in range(gx) for b in range(gy)]
+        n1 = rng.randint(2, min(25, len(sites)))
+        n2 = 1 if rng.random() < 0.1 else rng.randint(1, min(25, len(sites)))
+        l1 = [rng.choice(sites) for _ in range(n1)] if rng.random() < 0.3 else rng.sample(sites, n1)
+        l2 = [rng.choice(sites) for _ in range(n2)] if rng.random() < 0.3 else rng.sample(sites, n2)
+        m = rng.choice([0.4, 1.05, 1.05, 1.2, 1.45, 2.1, 2.3, 3.2])
+        names = sorted(R.FLAVOURS)
+        flav = []
+        for _ in range(3):
+            f = rng.choice(names)
+            which = rng.choice(['ra1', 'dec1', 'list1', 'list2', 'ra2', 'dec2', 'all', 'ra_both'])
+            args = {'ra1': ['ra1'], 'dec1': ['dec1'], 'list1': ['ra1', 'dec1'], 'list2': ['ra2', 'dec2'], 'ra2': ['ra2'],
+                    'dec2': ['dec2'], 'all': ['ra1', 'dec1', 'ra2', 'dec2'], 'ra_both': ['ra1', 'ra2']}[which]
+            spec = {}
+            for a in args:
+                neg = min(p[1] for p in (l1 if a.endswith('1') else l2)) < 0
+                spec[a] = f if not (f in R.UNSIGNED and a.startswith('dec') and neg) else 'i4'
+            if rng.random() < 0.25:             # mixed: another flavour for one more argument
+                spec[rng.choice(['ra1', 'dec1', 'ra2', 'dec2'])] = rng.choice(['i8', 'f4', 'i2', 'strided', '>f8'])
+            flav.append(spec)
+        cs = None if rng.random() < 0.6 else m * rng.choice([1.3, 2.0, 4.0, 8.0])
+        return {'m': m, 'cs': cs, 'k': rng.choice([0, 0, 0, 1, 2]), 'ra1': [p[0] for p in l1], 'dec1': [p[1] for p in l1],
+                'ra2': [p[0] for p in l2], 'dec2': [p[1] for p in l2], 'flavours': flav, 'variants': []}
 
     def gen_degenerate(self, rng, nr, i):
         """all points of list 1 and/or list 2 at exactly one RA (meridian strip, two points at one RA, RA 0 and the
@@ -793,11 +829,48 @@ class C04(Check):
                     out.count('chunksize_variants')
             with np.errstate(all='ignore'):      # a leaked numpy error state must not reach the oracle's own arithmetic
                 self._judge(out, res, p1, p2, n1, n2, S, Sf, sure, maybe, m, k, tag, case)
+        if case.get('flavours'):
+            self._run_flavours(case, out, S, Sf, m, int(case['k']))
         out.nontrivial = nsure >= 1 and nonpair_near >= 1 and cross >= 1
         out.info.update({'n1': n1, 'n2': n2, 'true_pairs': nsure, 'band_pairs': nband, 'cross_cell_true_pairs': cross,
                          'nonpairs_within_2m': nonpair_near})
 
-    def _judge(self, out, res, p1, p2, n1, n2, S, Sf, sure, maybe, m, k, tag, case):
+    def _run_flavours(self, case, out, S, Sf, m, k):
+        """the same positions handed over in other dtypes / memory layouts; judged by the same oracle (single-precision
+        band when numpy converts the argument to radians in float32); argument buffers compared bytewise afterwards"""
+        vals = {a: case[a] for a in ('ra1', 'dec1', 'ra2', 'dec2')}
+        n1, n2 = len(vals['ra1']), len(vals['ra2'])
+        ident1, ident2 = np.arange(n1), np.arange(n2)
+        for spec in case['flavours']:
+            args, owners, prec = {}, {}, 'double'
+            for a in ('ra1', 'dec1', 'ra2', 'dec2'):
+                f = spec.get(a, 'f8')
+                args[a], owners[a] = R.make_arg(vals[a], f)
+                if R.FLAVOURS[f] == 'single':
+                    prec = 'single'
+            before = {a: owners[a].tobytes() for a in owners}
+            tag = 'flavour %s (k=%d, cs=%r)' % (spec, k, case['cs'])
+            res = self.SG.spherematch(args['ra1'], args['dec1'], args['ra2'], args['dec2'], m, chunksize=case['cs'], maxmatch=k)
+            out.count('flavour_calls')
+            fl = set(spec.values())
+            if fl & {'i8', 'i4', 'i2', 'u4', 'u2', '>i4', 'strided_i8'}:
+                out.count('flavour_int_calls')
+            if prec == 'single':
+                out.count('flavour_single_precision_calls')
+            if fl & {'strided', 'reversed', 'readonly', '>f8', '>f4', '>i4', 'strided_i8', 'strided_f4'}:
+                out.count('flavour_layout_calls')
+            with np.errstate(all='ignore'):
+                sure, maybe = R.classify(S, m, prec)
+                out.count('flavour_true_pairs', int(sure.sum()))
+                nb = int((maybe & ~sure).sum())
+                if nb:
+                    out.undecide(nb)
+                self._judge(out, res, ident1, ident2, n1, n2, S, Sf, sure, maybe, m, k, tag, case, prec)
+                changed = [a for a in owners if owners[a].tobytes() != before[a]]
+                out.count('flavour_args_unchanged_checks')
+                out.expect(not changed, 'argument-unchanged', '%s: the call modified its argument array(s) %s' % (tag, changed))
+
+    def _judge(self, out, res, p1, p2, n1, n2, S, Sf, sure, maybe, m, k, tag, case, prec='double'):
         ok = out.expect(isinstance(res, tuple) and len(res) == 3, 'shape', '%s: result is not a 3-tuple' % tag)
         if not ok:
             return
@@ -834,7 +907,7 @@ class C04(Check):
         # distances
         if got:
             ref = Sf[I, J]
-            tol = np.maximum(R.BAND_REL * ref, R.BAND_ABS)
+            tol = np.maximum(R.PREC[prec][0] * ref, R.PREC[prec][1])
             bad = np.nonzero(~(np.abs(d - ref) <= tol))[0]
             out.expect(bad.size == 0, 'distance', '%s: %d reported distance(s) differ from the true separation' % (tag, bad.size),
                        first={'pair': describe(*got[int(bad[0])]), 'reported': float(d[bad[0]])} if bad.size else None)
@@ -856,7 +929,7 @@ class C04(Check):
             refret = S[I, J] if I.size else np.zeros(0, dtype=R.LD)
             notmax = []
             for a, b in missing:
-                lim = S[a, b] + R.LD(R.band(float(S[a, b])))
+                lim = S[a, b] + R.LD(R.band(float(S[a, b]), prec))
                 ua = int(((I == a) & (refret <= lim)).sum())
                 ub = int(((J == b) & (refret <= lim)).sum())
                 if ua < k and ub < k:
